@@ -6,9 +6,14 @@
 #include "pls.h"
 #include "mlr.h"
 #include "statistic.h"
+#include "numeric.h"
 void harness(void){
   matrix *yt,*yp; NewMatrix(&yt,HP_N,HP_NY); NewMatrix(&yp,HP_N,HP_NY*HP_NLV);
-  for(size_t i=0;i<HP_N;i++){ for(size_t j=0;j<HP_NY;j++) yt->data[i][j]=in_double(-1e3,1e3); for(size_t c=0;c<HP_NY*HP_NLV;c++) yp->data[i][c]=in_double(-1e3,1e3); }
+  for(size_t i=0;i<HP_N;i++){ for(size_t j=0;j<HP_NY;j++){ yt->data[i][j]=in_double(-1e3,1e3);
+#if defined(HP_MASK) && HP_MASK
+      if((HP_MASK>>(i*HP_NY+j))&1) yt->data[i][j]=MISSING;      /* concrete mask of MISSING-coded truths (bit i*ny+j): ignored per response column, not per object */
+#endif
+    } for(size_t c=0;c<HP_NY*HP_NLV;c++) yp->data[i][c]=in_double(-1e3,1e3); }
 #if HP_MLR
   dvector *cc,*rm,*bi; initDVector(&cc); initDVector(&rm); initDVector(&bi);
   MLRRegressionStatistics(yt,yp,cc,rm,bi);
@@ -20,7 +25,7 @@ void harness(void){
 #endif
   for(size_t lv=0;lv<HP_NLV;lv++)for(size_t j=0;j<HP_NY;j++){
     dvector *a,*b; NewDVector(&a,HP_N); NewDVector(&b,HP_N); for(size_t i=0;i<HP_N;i++){ a->data[i]=yt->data[i][j]; b->data[i]=yp->data[i][HP_NY*lv+j]; }
-    { double s=0; for(size_t i=0;i<HP_N;i++) s+=a->data[i]; double q=0; for(size_t i=0;i<HP_N;i++) q+=(a->data[i]-s/HP_N)*(a->data[i]-s/HP_N); ASSUME(q>=1e-12); }
+    { double s=0, cnt=0; for(size_t i=0;i<HP_N;i++) if(a->data[i]!=MISSING){ s+=a->data[i]; cnt+=1; } double q=0; for(size_t i=0;i<HP_N;i++) if(a->data[i]!=MISSING) q+=(a->data[i]-s/cnt)*(a->data[i]-s/cnt); ASSUME(q>=1e-12); }
 #if HP_MLR
     CHECK_EQ(cc->data[j], R2(a,b), "table entry = R2 of (true column j, predicted column j)"); CHECK_EQ(rm->data[j], RMSE(a,b), "table entry = RMSE"); CHECK_EQ(bi->data[j], BIAS(a,b), "table entry = BIAS");
 #else
